@@ -52,6 +52,42 @@ Theorem C18_prepared_instance_as_found_loses_level : forall i k,
 Proof. exact prepared_instance_as_found_loses_level. Qed.
 Print Assumptions C18_prepared_instance_as_found_loses_level.
 
+(* the same failed task observed several times (by the driver itself, by chains of reader tasks that
+   await it or ask synchronously, with or without a handler at any level; the driver a plain caller
+   or a task): every observer -- the first and every later one -- sees its own chain, one frame
+   per reader level in call order from the catching level down, followed by the failed task's
+   frames [expected], and no frame of any other observer.  For the repaired raise_if_error
+   (work/fixes/C18-shared-error-traceback.diff). *)
+Theorem C18_every_observer_sees_its_own_chain : forall ms b drv os,
+  map (option_map user_frames) (observations ms b drv os) =
+  match expected 0%Z ms b with
+  | None => map (fun _ => None) os
+  | Some fs => map Some (views 0%Z os fs)
+  end.
+Proof. exact every_observer_sees_its_own_chain. Qed.
+Print Assumptions C18_every_observer_sees_its_own_chain.
+
+(* the reading [observer_view] for observers without handlers: driver, one frame per reader level *)
+Theorem C18_observer_one_frame_per_reader_level : forall k rs fs, no_handler rs = true ->
+  observer_view k rs fs = FCaller :: reader_frames k 0%Z (List.length rs) ++ fs.
+Proof. exact observer_view_plain. Qed.
+Print Assumptions C18_observer_one_frame_per_reader_level.
+
+(* the code as found: after a reader task that let the error propagate, a later observer gets that
+   reader's frame *)
+Theorem C18_shared_error_as_found_leaks_reader : forall ms b drv h fs, expected 0%Z ms b = Some fs ->
+  map (option_map user_frames) (observations_with false ms b drv [[(h, false)]; []])
+  = [Some (FCaller :: FReader 0 0 :: fs); Some (FCaller :: FReader 0 0 :: fs)].
+Proof. exact shared_error_as_found_leaks_reader. Qed.
+Print Assumptions C18_shared_error_as_found_leaks_reader.
+
+(* ... and the code as found is right whenever no reader task fails with the error *)
+Theorem C18_as_found_agrees_without_failing_reader : forall ms b drv os,
+  forallb innermost_catches os = true ->
+  observations_with false ms b drv os = observations_with true ms b drv os.
+Proof. exact as_found_agrees_without_failing_reader. Qed.
+Print Assumptions C18_as_found_agrees_without_failing_reader.
+
 (* (c) asynq stack *)
 
 (* for every chain of tasks, whatever frame state (live / kept after a failure / gone) and source
